@@ -24,7 +24,7 @@ def _render_job(job):
     import random
     out, cnt = [], 0
     rnd = random.Random(seed)
-    for ti, (b, l, r) in enumerate(nbspace.triples(seed, n, max_edits=3)):
+    for ti, (b, l, r) in enumerate(nbspace.triples(seed, n, max_edits=3, tail=True)):
         try:
             d = diff_notebooks(b, l)
             dec = decide_notebook_merge(b, l, r, mergespace.args_for('mergetool'))
